@@ -363,7 +363,7 @@ def _shipped_task(task):
 def run(tier, seed):
     acc = Acc()
     names = (C.SMALL_INT_QUICK + C.SMALL_ED_QUICK) if tier == "quick" else (C.SMALL_INT_ALL + C.SMALL_ED_ALL)
-    names = sorted(names, key=lambda n: -T.get(n).q if T.try_get(n)[0] else 0)
+    names = sorted(names, key=lambda n: -T.hint(n).q if T.try_get(n)[0] else 0)
     tasks = [("small", (n, tier)) for n in names] + [("shipped", (n, seed)) for n in T.SHIPPED]
     core.pmerge(_dispatch, tasks, acc)
     return acc
